@@ -122,8 +122,13 @@ impl NamespaceData {
             let index = i + start;
             self.name_map.insert(name, TypeIndex::Enum(index));
             if let Some(variants) = data.unscoped_variants() {
-                self.enum_variant_map
-                    .extend(variants.iter().map(|v| (v.to_owned(), index)));
+                // a flag type lists the variants of its enum, which they belong to
+                let is_flag = data.is_flag();
+                for v in variants {
+                    if !(is_flag && self.enum_variant_map.contains_key(v)) {
+                        self.enum_variant_map.insert(v.to_owned(), index);
+                    }
+                }
             }
             self.enums.push(data);
         }
